@@ -84,6 +84,59 @@ theorem gen_line_coordinates_eq_model (start stop : Rat) (size : Option Nat) (sp
     | none =>
       cases pixel <;> simp [bind, Except.bind, pure, Except.pure, optGet, linspaceE_nat, linspaceE_nat_succ, pixelShift_eq_inline]
 
+private theorem checkRegion4_eq (w e s n : Rat) :
+    Gen.checkRegion4 w e s n = (checkRegion [w, e, s, n]).map (fun _ => ()) := by
+  unfold Gen.checkRegion4 checkRegion
+  by_cases h1 : w > e
+  · simp [h1, Except.map]
+  · by_cases h2 : s > n
+    · simp [h1, h2, Except.map]
+    · simp [h1, h2, Except.map]
+
+theorem gen_lc_some (a b : Rat) (k : Nat) (adj : String) (pixel : Bool) :
+    Gen.lineCoordinates a b (some (k : Int)) none adj pixel = lineCoordinates a b (some k) none (adjOf adj) pixel :=
+  gen_line_coordinates_eq_model a b (some k) none adj pixel
+theorem gen_lc_none (a b : Rat) (sp : Rat) (adj : String) (pixel : Bool) :
+    Gen.lineCoordinates a b none (some sp) adj pixel = lineCoordinates a b none (some sp) (adjOf adj) pixel :=
+  gen_line_coordinates_eq_model a b none (some sp) adj pixel
+
+/-- **Bridge.**  The core of `grid_coordinates` (everything up to `coordinates = [east, north]`) as regenerated STATEMENT BY
+    STATEMENT from /repo's source text on every run — the call to the translated `check_region`, both shape/spacing guards,
+    `shape = (None, None)`, `np.atleast_1d(spacing)`, the one-value → two-values rule, the more-than-two-values error, and the two
+    keyword calls to the translated `line_coordinates` with `shape[1]`/`spacing[1]` for east and `shape[0]`/`spacing[0]` for
+    north — equals the model's `gridLines` for every region, optional shape, optional spacing list, adjust string and
+    registration, including which error is raised (an empty spacing array is an `IndexError` in both). -/
+theorem gen_grid_lines_eq_model (w e s n : Rat) (shape : Option (Nat × Nat)) (spacing : Option (List Rat)) (adj : String)
+    (pixel : Bool) :
+    Gen.gridLines w e s n (shape.map fun p => ((p.1 : Int), (p.2 : Int))) spacing adj pixel
+      = gridLines [w, e, s, n] ⟨shape, spacing, adjOf adj, pixel⟩ := by
+  unfold Gen.gridLines gridLines
+  rw [checkRegion4_eq]
+  unfold checkRegion
+  by_cases h1 : w > e
+  · simp [h1, Except.map, bind, Except.bind]
+  by_cases h2 : s > n
+  · simp [h1, h2, Except.map, bind, Except.bind]
+  simp only [h1, h2, if_false, Except.map, bind, Except.bind]
+  cases shape with
+  | none =>
+    cases spacing with
+    | none => simp [throw, throwThe, MonadExceptOf.throw]
+    | some sp =>
+      match sp with
+      | [] => simp [optGet, idxO, pure, Except.pure, bind, Except.bind]
+      | [a] => 
+        simp [optGet, idxO, idxE, pure, Except.pure, gen_lc_none]
+      | [a, b] => 
+        simp [optGet, idxO, idxE, pure, Except.pure, bind, Except.bind, gen_lc_none]
+      | a :: b :: c :: r => simp [optGet, throw, throwThe, MonadExceptOf.throw, pure, Except.pure, bind, Except.bind]
+  | some p =>
+    obtain ⟨nn, ne⟩ := p
+    cases spacing with
+    | some sp => simp [throw, throwThe, MonadExceptOf.throw]
+    | none =>
+      simp [optGet, idxO, pure, Except.pure, bind, Except.bind, gen_lc_some]
+
 /-- `round` is nearest-integer with ties to even. -/
 theorem round_nearest (q : Rat) : |(roundHalfEven q : Rat) - q| ≤ 1/2 := roundHalfEven_near q
 theorem round_ties_to_even (q : Rat) (h : q - (q.floor : Rat) = 1/2) : roundHalfEven q % 2 = 0 :=
